@@ -328,7 +328,8 @@ def x_args(a):
 def x_tpl(tpl):
     if not tpl:
         return None
-    return [{'n': p['n'], 'i': [] if p['i'] is None else [x_typename(i) for i in p['i']]} for p in tpl]
+    # every entry of an instantiation list is a Typename node, templated or not
+    return [{'n': p['n'], 'i': [] if p['i'] is None else [x_typename(i) for i in p['i']], 'nodes': ['Typename']} for p in tpl]
 
 
 def x_member(m):
@@ -445,7 +446,7 @@ def o_args(a):
 def o_tpl(tpl):
     if not tpl:
         return None
-    return [{'n': n, 'i': [o_typename(i) for i in insts]}
+    return [{'n': n, 'i': [o_typename(i) for i in insts], 'nodes': sorted({type(i).__name__ for i in insts}) or ['Typename']}
             for n, insts in zip(tpl.typenames, tpl.instantiations)]
 
 
